@@ -19,15 +19,15 @@ RULE = (
     "roMetadataReplace) x running-order-ID pattern in {all equal, one other message deviates, the "
     "roDelete deviates, a second roCreate deviates, the only roCreate deviates} x allow_incomplete in "
     "{False, True}, including the empty list, message IDs distinct and supplied in shuffled order; "
-    "(b) Hypothesis multisets with up to 6 of each.  Every batch is evaluated in three FRESH "
+    "(a') the small lists again through from_files, plain and with each document in turn listed twice (the same path twice); (b) Hypothesis multisets with up to 6 of each.  Every batch is evaluated in three FRESH "
     "interpreters started as `python`, `python -O` and `python -OO`.  Oracle: accepted <=> one roID "
     "and exactly one roCreate and <= 1 roDelete and (allow_incomplete or exactly one roDelete); "
     "otherwise InvalidMosCollection; after acceptance mc.ro.message_id is the roCreate's, mc.ro is a "
     "RunningOrder, and the reader IDs are the remaining IDs in ascending order; identical outcomes "
     "across the three interpreter configurations.  Non-trivial = anything but a plain valid list "
     "under the default interpreter: a count >= 2 or == 0, mixed IDs, the empty list, or -O/-OO.")
-ASSUMPTIONS = ['message IDs are distinct', 'each document is individually classifiable']
-MANDATORY = ['completed-roCreate', 'flags:-O', 'flags:-OO', 'empty-list', 'two-roCreates', 'two-roDeletes', 'no-roCreate',
+ASSUMPTIONS = ['message IDs are distinct, except that the same document may be listed twice', 'each document is individually classifiable']
+MANDATORY = ['blank-roID-among-others', 'same-document-twice', 'source:files', 'completed-roCreate', 'flags:-O', 'flags:-OO', 'empty-list', 'two-roCreates', 'two-roDeletes', 'no-roCreate',
              'mixed-ids', 'valid-complete', 'valid-incomplete-allowed', 'incomplete-not-allowed',
              'roReplace-present']
 
@@ -37,12 +37,28 @@ sys.path.insert(0, REPO)
 import logging; logging.disable(logging.CRITICAL)
 from mosromgr.moscollection import MosCollection
 out = []
-for docs, ai in json.load(sys.stdin):
+import os, tempfile, shutil
+for docs, ai, source in json.load(sys.stdin):
+    tmp = None
     try:
-        mc = MosCollection.from_strings(docs, allow_incomplete=ai)
+        if source == 'files':
+            # one file per DISTINCT document: a document listed twice is the same path twice
+            tmp = tempfile.mkdtemp(prefix='c11-', dir=WORK)
+            paths = []
+            for d in docs:
+                p = os.path.join(tmp, 'doc%03d.mos.xml' % docs.index(d))
+                if not os.path.exists(p):
+                    open(p, 'w', encoding='utf-8').write(d)
+                paths.append(p)
+            mc = MosCollection.from_files(paths, allow_incomplete=ai)
+        else:
+            mc = MosCollection.from_strings(docs, allow_incomplete=ai)
         out.append(['ok', mc.ro.message_id, [r.message_id for r in mc.mos_readers], type(mc.ro).__name__])
     except Exception as e:
         out.append(['exc', type(e).__name__])
+    finally:
+        if tmp:
+            shutil.rmtree(tmp, ignore_errors=True)
 print(json.dumps(out))
 '''
 FLAGS = {'default': [], '-O': ['-O'], '-OO': ['-OO']}
@@ -75,7 +91,7 @@ def doc(kind, mid, ro_id):
 OTHERS = ['roStorySend', 'roReplace', 'roStoryMove', 'roElementAction', 'roMetadataReplace']
 
 
-def make_case(nc, nd, no, pattern, ai, perm_seed=0, other_off=0, completed=False):
+def make_case(nc, nd, no, pattern, ai, perm_seed=0, other_off=0, completed=False, dup=None, source='strings'):
     """-> case dict or None when the pattern does not apply."""
     kinds = ['roCreate'] * nc + ['roDelete'] * nd + [OTHERS[(i + other_off) % len(OTHERS)] for i in range(no)]
     if nc and (completed or (perm_seed + other_off + nd + no) % 4 == 3):
@@ -97,6 +113,14 @@ def make_case(nc, nd, no, pattern, ai, perm_seed=0, other_off=0, completed=False
         if nc != 1 or len(kinds) < 2:
             return None
         ro_ids[0] = 'RO2'
+    elif pattern == 'other-blank':
+        if no == 0:
+            return None
+        ro_ids[nc + nd] = ''
+    elif pattern == 'delete-blank':
+        if nd == 0:
+            return None
+        ro_ids[nc] = ''
     n = len(kinds)
     # distinct message ids of mixed width, roCreate not necessarily the smallest
     mids = [7, 1003, 12, 99, 100, 5, 64000, 31, 8, 2000, 9, 10, 101, 3, 77777][:n]
@@ -105,7 +129,12 @@ def make_case(nc, nd, no, pattern, ai, perm_seed=0, other_off=0, completed=False
     order = list(range(n))
     if perm_seed % 2:
         order.reverse()
-    return {'docs': [docs[i] for i in order], 'allow_incomplete': ai,
+    if dup is not None:
+        # the very same document a second time (the same file listed twice)
+        if not n:
+            return None
+        order.append(order[dup % n])
+    return {'docs': [docs[i] for i in order], 'allow_incomplete': ai, 'source': source,
             'meta': {'kinds': [kinds[i] for i in order], 'mids': [mids[i] for i in order],
                      'ro_ids': [ro_ids[i] for i in order]}}
 
@@ -123,8 +152,8 @@ def oracle(case):
 
 
 def evaluate(cases, flags):
-    prog = WORKER.replace('REPO', repr(env.REPO_DIR))
-    payload = json.dumps([[c['docs'], c['allow_incomplete']] for c in cases])
+    prog = WORKER.replace('REPO', repr(env.REPO_DIR)).replace('WORK', repr(env.ensure_dir(env.WORK_DIR)))
+    payload = json.dumps([[c['docs'], c['allow_incomplete'], c.get('source', 'strings')] for c in cases])
     r = subprocess.run([sys.executable, '-B'] + FLAGS[flags] + ['-c', prog], input=payload,
                        capture_output=True, text=True, timeout=900,
                        env=dict(os.environ, PYTHONDONTWRITEBYTECODE='1'))
@@ -149,6 +178,11 @@ def classes_of(case, flags):
         cl.append('no-roCreate')
     if len(set(case['meta']['ro_ids'])) > 1:
         cl.append('mixed-ids')
+    if '' in case['meta']['ro_ids']:
+        cl.append('blank-roID-among-others')
+    if len(set(case['docs'])) < len(case['docs']):
+        cl.append('same-document-twice')
+    cl.append('source:' + case.get('source', 'strings'))
     if 'roReplace' in k:
         cl.append('roReplace-present')
     exp = oracle(case)
@@ -191,7 +225,7 @@ def run_batch(col, cases):
             fails = judge_outcome(case, f, outs[f][i])
             plain = (f == 'default' and oracle(case)[0] == 'ok')
             col.record(c, not plain, classes_of(case, f), fails,
-                       key=h64(json.dumps(case['meta'], sort_keys=True), case['allow_incomplete'], f))
+                       key=h64(json.dumps(case['meta'], sort_keys=True), case['allow_incomplete'], f, case.get('source', 'strings')))
         if len({json.dumps(outs[f][i]) for f in FLAGS}) > 1:
             col.add_failure(Failure(PROP, 'C11|outcome-depends-on-interpreter-flags',
                                     f'kinds={case["meta"]["kinds"]}: ' +
@@ -203,7 +237,8 @@ def run(tier, seed, procs):
     col = Collector(PROP)
     cases = []
     top = 3 if quick else 4
-    pats = ['all-equal', 'other-deviates', 'delete-deviates', 'second-create-deviates', 'only-create-deviates']
+    pats = ['all-equal', 'other-deviates', 'delete-deviates', 'second-create-deviates', 'only-create-deviates',
+            'other-blank', 'delete-blank']
     for nc, nd, no, pat, ai in itertools.product(range(top + 1), range(top + 1), range(top + 1),
                                                  pats, (False, True)):
         for ps in ((0,) if quick else (0, 1, 2, 3)):
@@ -214,6 +249,12 @@ def run(tier, seed, procs):
                 c2 = make_case(nc, nd, no, pat, ai, perm_seed=ps + seed, other_off=ps, completed=True)
                 if c2 is not None:
                     cases.append(c2)
+            if nc <= 2 and nd <= 2 and no <= 2 and pat == 'all-equal':
+                # from files, plain and with each document in turn listed twice
+                for dup in [None] + list(range(nc + nd + no)):
+                    c3 = make_case(nc, nd, no, pat, ai, perm_seed=ps + seed, other_off=ps, dup=dup, source='files')
+                    if c3 is not None:
+                        cases.append(c3)
     col.scopes.append(f'collections: 0..{top} roCreates x 0..{top} roDeletes x 0..{top} others x 5 ID patterns '
                       f'x allow_incomplete x 3 interpreter configurations ({len(cases)} lists)')
     # hypothesis: larger multisets
